@@ -25,11 +25,14 @@ open FF.Linalg Finset
 def Marg.Valid : Marg ℝ → Prop
   | .normal _ sigma => sigma ≠ 0
   | .lognormal _ s => s ≠ 0
+  | .general ofZ toZ dxdz _ => (∀ z, toZ (ofZ z) = z) ∧ (∀ z, HasDerivAt ofZ (dxdz (ofZ z)) z) ∧
+      (∀ x, ofZ (toZ x) = x → dxdz x ≠ 0) ∧ (∀ x, ofZ (toZ x) = x → HasDerivAt toZ (1 / dxdz x) x)
 
 /-- the support of the marginal -/
 def Marg.InSupport : Marg ℝ → ℝ → Prop
   | .normal _ _, _ => True
   | .lognormal _ _, x => 0 < x
+  | .general ofZ toZ _ _, x => ofZ (toZ x) = x
 
 theorem toZ_ofZ (m : Marg ℝ) (hv : m.Valid) (z : ℝ) : m.toZ (m.ofZ z) = z := by
   cases m with
@@ -37,6 +40,7 @@ theorem toZ_ofZ (m : Marg ℝ) (hv : m.Valid) (z : ℝ) : m.toZ (m.ofZ z) = z :=
   | lognormal mm s =>
     simp only [Marg.toZ, Marg.ofZ, exp_real, log_real, Real.log_exp]
     field_simp [show s ≠ 0 from hv]; ring
+  | general f g d d2 => exact hv.1 z
 
 theorem ofZ_toZ (m : Marg ℝ) (hv : m.Valid) (x : ℝ) (hx : m.InSupport x) : m.ofZ (m.toZ x) = x := by
   cases m with
@@ -46,20 +50,25 @@ theorem ofZ_toZ (m : Marg ℝ) (hv : m.Valid) (x : ℝ) (hx : m.InSupport x) : m
     have hs : s ≠ 0 := hv
     have : mm + s * ((Real.log x - mm) / s) = Real.log x := by field_simp; ring
     rw [this, Real.exp_log hx]
+  | general f g d d2 => exact hx
 
-theorem ofZ_inSupport (m : Marg ℝ) (z : ℝ) : m.InSupport (m.ofZ z) := by
+theorem ofZ_inSupport (m : Marg ℝ) (hv : m.Valid) (z : ℝ) : m.InSupport (m.ofZ z) := by
   cases m with
   | normal mu sigma => trivial
   | lognormal mm s => exact Real.exp_pos _
+  | general f g d d2 =>
+    show f (g (f z)) = f z
+    rw [hv.1 z]
 
 theorem dxdz_ne_zero (m : Marg ℝ) (hv : m.Valid) (x : ℝ) (hx : m.InSupport x) : m.dxdz x ≠ 0 := by
   cases m with
   | normal mu sigma => exact hv
   | lognormal mm s => exact mul_ne_zero hv (ne_of_gt hx)
+  | general f g d d2 => exact hv.2.2.1 x hx
 
 /-- `d/dz F⁻¹(Φ(z)) = φ(z)/f(x)`: the slope of the marginal map is the quantity on the diagonal of the
 returned matrices -/
-theorem hasDerivAt_ofZ (m : Marg ℝ) (z : ℝ) : HasDerivAt m.ofZ (m.dxdz (m.ofZ z)) z := by
+theorem hasDerivAt_ofZ (m : Marg ℝ) (hv : m.Valid) (z : ℝ) : HasDerivAt m.ofZ (m.dxdz (m.ofZ z)) z := by
   cases m with
   | normal mu sigma =>
     have h := ((hasDerivAt_id z).const_mul sigma).const_add mu
@@ -74,6 +83,7 @@ theorem hasDerivAt_ofZ (m : Marg ℝ) (z : ℝ) : HasDerivAt m.ofZ (m.dxdz (m.of
     change HasDerivAt (fun z => Real.exp (mm + s * z)) (s * Real.exp (mm + s * z)) z
     rw [mul_comm]
     exact h2
+  | general f g d d2 => exact hv.2.1 z
 
 theorem hasDerivAt_toZ (m : Marg ℝ) (hv : m.Valid) (x : ℝ) (hx : m.InSupport x) :
     HasDerivAt m.toZ (1 / m.dxdz x) x := by
@@ -90,6 +100,7 @@ theorem hasDerivAt_toZ (m : Marg ℝ) (hv : m.Valid) (x : ℝ) (hx : m.InSupport
     have e : 1 / (s * x) = x⁻¹ / s := by field_simp
     rw [e]
     exact h
+  | general f g d d2 => exact hv.2.2.2 x hx
 
 /-- well-formedness of a model: admissible marginals, `L L⁻¹ = L⁻¹ L = 1` on the block -/
 structure WF (T : Model ℝ) : Prop where
@@ -166,7 +177,7 @@ theorem sum_mul_update (n : Nat) (a u : Nat → ℝ) (j : Nat) (hj : j < n) (t :
 
 /-- **the matrix returned by `getU` is the derivative of `getX`**: entry `(i, j)` of `diag(φ/f) L` at
 `x = getX u` is `∂ getX_i / ∂ u_j` -/
-theorem C11m_getU_matrix_is_derivative_of_getX (T : Model ℝ) (u : Vec ℝ) (i j : Nat) (hj : j < T.dim) :
+theorem C11m_getU_matrix_is_derivative_of_getX (T : Model ℝ) (wf : WF T) (u : Vec ℝ) (i j : Nat) (hi : i < T.dim) (hj : j < T.dim) :
     HasDerivAt (fun t => getX T (Function.update u j t) i) (jacGetU T (getX T u) i j) (u j) := by
   unfold getX jacGetU
   have hlin : HasDerivAt (fun t => mulVec T.dim T.L (Function.update u j t) i) (T.L i j) (u j) := by
@@ -180,7 +191,7 @@ theorem C11m_getU_matrix_is_derivative_of_getX (T : Model ℝ) (u : Vec ℝ) (i 
     exact h
   have hz : mulVec T.dim T.L (Function.update u j (u j)) i = mulVec T.dim T.L u i := by
     rw [Function.update_eq_self]
-  have := (hasDerivAt_ofZ (T.marg i) (mulVec T.dim T.L (Function.update u j (u j)) i)).comp (u j) hlin
+  have := (hasDerivAt_ofZ (T.marg i) (wf.valid i hi) (mulVec T.dim T.L (Function.update u j (u j)) i)).comp (u j) hlin
   rw [hz] at this
   exact this
 
